@@ -436,11 +436,12 @@ def grouped_direct_nan(ctx: Ctx, n, oracle_only=False, given=None):
                   [('a', 'b', 1.0), ('a', 'b', float('nan')), ('b', 'a', float('nan')), ('b', 'a', 2.0), ('b', 'a', 4.0), ('b', 'a', float('nan'))]]
     req, metas = [], []
     for rows in cases:
-        fin = [r for r in rows if not math.isnan(r[2])]
         rk, names = sc.name_ranks(rows)
         metas.append(names)
-        req.append(line(Atom(PROP), Atom('agg'), sc.wire_rows(fin, rk)))
+        # the Lean model of the NaN-skipping aggregation (Stream.aggregateSkip, Props/C08 §2b); `nan` travels as an atom
+        req.append(line(Atom(PROP), Atom('aggskip'), [[rk[a], rk[b], Atom('nan') if math.isnan(x) else Fraction(x)] for a, b, x in rows]))
     rep = run_driver(req)
+    rep = [[r for r in m if r[2] != Atom('nan')] for m in rep]          # pairs with a defined median
     for rows, names, m in zip(cases, metas, rep):
         stored = {'direct_rows_nan': [[a, b, None if math.isnan(x) else x] for a, b, x in rows]}
         g = cr.get_grouped_df(list(rows))
